@@ -255,6 +255,7 @@ type iterObj struct {
 	frozen         bool        // long-lived: created before later writes
 	excisedSpans   [][2]string // spans excised after creation (documented exception for nothing here; kept for snapshots)
 	lastSeek       string      // previous seek key of a positioning burst
+	useFilter      bool        // created with RangeKeyMasking.Filter (kept across SetOptions)
 	forceFirstSeek string      // if set, the next burst starts with SeekGE of this key
 	full           []string    // every op on the iterator since its creation (diagnostics)
 	l6             bool        // UseL6Filters the iterator was created with
